@@ -19,7 +19,7 @@ CASE_TIMEOUT = 900
 CPU_BUDGET = 700
 REQUIRED_OBS = ["sessions_traced", "ops_recorded", "prefix_images_opened", "images_rejected", "images_complete"]
 RULE = ("create and append sessions on small member lists (every header mode, +-password, several chains; append onto py7zr-written and reference-written bases; "
-        "append sessions that add nothing). The session's op stream is recorded at two levels: what py7zr issues on a caller-supplied stream (TraceIO) and what "
+        "append sessions that add nothing or only data-less members under the Copy chain, so that the new header lands exactly on the old one). The session's op stream is recorded at two levels: what py7zr issues on a caller-supplied stream (TraceIO) and what "
         "reaches the OS below Python's buffering (raw FileIO under a BufferedRandom). For EVERY byte prefix of the op stream, and for the variants 'op i lost, op i+1 "
         "applied', the file image is rebuilt and opened with py7zr (getnames+extractall) and the reference reader. Violation: an image that opens successfully with a "
         "member list/bytes that is neither the complete post-state nor (append) the pre-state. Cell = (session kind, header, chain, trace level, outcome class).")
@@ -82,8 +82,24 @@ def cases(rng, tier):
                     pw = None
                     ch = [x for x in ch if x["f"] != "AES"]
                 base = {"kind": "ref", "case": c}
+        members = [] if kind == "append-nothing" else G.member_list(rng, n=rng.choice([1, 2, 3]), max_len=400, flavours=["ascii"])
+        if kind == "append" and i % 4 == 1:
+            # data-less members under a chain that adds no bytes of its own: the new header lands exactly where the old one was
+            ch = [c for c in G.chain(rng, comp="COPY", aes=False)]
+            for m in members:
+                m["content"] = {"len": 0, "tex": "zeros", "seed": 0}
         out.append({"kind": kind, "password": pw, "chain": ch, "header": rng.choice(["encoded", "raw"] + (["encrypted_setter"] if pw else [])),
-                    "members": ([] if kind == "append-nothing" else G.member_list(rng, n=rng.choice([1, 2, 3]), max_len=400, flavours=["ascii"])),
+                    "members": members,
+                    "base": base, "level": rng.choice(["stream", "raw"]), "seed": rng.getrandbits(32)})
+    # the shape in which the new packed header is written exactly over the old one: a py7zr-written base with an encoded header,
+    # appended to with the Copy chain and data-less members (found by a bug hunt on the unmodified tree: 10 of 24 such sessions
+    # had a crash state that opened with a wrong member list)
+    for i in range(16 if tier == "quick" else 200):
+        base = {"kind": "py", "members": G.member_list(rng, n=rng.choice([1, 2]), max_len=120, flavours=["ascii"]), "chain": G.chain(rng, comp="LZMA2", aes=False), "header": "encoded"}
+        mem = G.member_list(rng, n=rng.choice([1, 1, 2]), max_len=10, flavours=["ascii"])
+        for m in mem:
+            m["content"] = {"len": 0, "tex": "zeros", "seed": 0}
+        out.append({"kind": "append", "password": None, "chain": G.chain(rng, comp="COPY", aes=False), "header": rng.choice(["encoded", "encoded", "raw"]), "members": mem,
                     "base": base, "level": rng.choice(["stream", "raw"]), "seed": rng.getrandbits(32)})
     return out
 
